@@ -54,7 +54,7 @@ theorem kvAt_atomic (net : Net) : ∀ (fuel n : Nat) (k : String) (h : Nat) (op 
           cases e <;> simp [Specter.C08.isLookupError] at hl
           · left; exact ⟨.notStarted, rfl, rfl⟩
           · left; exact ⟨.kvStale, rfl, rfl⟩
-          · left; exact ⟨.noSuccessor, rfl, rfl⟩
+          · left; exact ⟨.kvStale, rfl, rfl⟩
           · left; exact ⟨.unreachable, rfl, rfl⟩
           · left; exact ⟨.fuel, rfl, rfl⟩
         | found succ =>
